@@ -14,6 +14,7 @@ import (
 	"sort"
 	"strconv"
 	"strings"
+	"sync"
 	"sync/atomic"
 	"time"
 
@@ -596,7 +597,7 @@ func (r *Runner) Exec(op map[string]any) (string, error) {
 				r.clock++
 				r.clockReal[r.clock] = time.Now().UnixNano()
 			}
-		case "VDelete", "VDeleteCut":
+		case "VDelete", "VDeleteCut", "VDeleteSnapCut":
 			if out == "ok" {
 				r.clock++
 				r.clockReal[r.clock] = time.Now().UnixNano()
@@ -763,6 +764,89 @@ func (r *Runner) exec(op map[string]any) (string, error) {
 		if imgErr != nil {
 			return "", fmt.Errorf("crash image: %w", imgErr)
 		}
+		if err := os.RemoveAll(r.Dir); err != nil {
+			return "", err
+		}
+		if err := os.Rename(img, r.Dir); err != nil {
+			return "", err
+		}
+		if err := r.open(); err != nil {
+			r.LastErr = err.Error()
+			return "err", nil
+		}
+		return "ok", nil
+	case "VDeleteSnapCut":
+		// a snapshot is requested while the cascade of the delete is parked at a hook; then the process dies.
+		// Specified: the snapshot waits for the cascade. The probe gives it 200 ms to (wrongly) finish with the cascade
+		// still parked; the crash image is taken when the snapshot has returned -- with the cascade parked if it did not
+		// wait, after the cascade otherwise.
+		tick()
+		img := r.Dir + "-img"
+		os.RemoveAll(img)
+		gate := make(chan struct{})
+		parked := make(chan struct{})
+		cdone := make(chan struct{}, 1)
+		var once sync.Once
+		cutAfter := r.cuts % 3
+		r.cuts++
+		var edges int32
+		park := func() { once.Do(func() { close(parked); <-gate }) }
+		verifhook.Set(func(name string, kv []any) {
+			if r.ExtraHook != nil {
+				r.ExtraHook(name, kv)
+			}
+			switch name {
+			case "cascade.start":
+				if cutAfter == 0 {
+					park()
+				}
+			case "cascade.edge":
+				if cutAfter > 0 && int(atomic.AddInt32(&edges, 1)) == cutAfter+1 {
+					park()
+				}
+			case "cascade.done":
+				once.Do(func() { close(parked) }) // fewer edges than the cut point: nothing to park at
+				cdone <- struct{}{}
+			}
+		})
+		err := e.VDelete(str(op, "n"), r.id(str(op, "id")))
+		if err != nil {
+			verifhook.Set(nil)
+			return res(err)
+		}
+		<-parked
+		sdone := make(chan error, 1)
+		go func() { sdone <- e.SaveSnapshot() }()
+		var serr error
+		var imgErr error
+		select {
+		case serr = <-sdone:
+			// the snapshot did not wait for the parked cascade (or the cascade was already done): the image of this moment
+			imgErr = copyImage(r.Dir, img)
+			close(gate)
+		case <-time.After(200 * time.Millisecond):
+			close(gate) // it waits, as specified: let the cascade finish, then the snapshot
+			serr = <-sdone
+			imgErr = copyImage(r.Dir, img)
+		}
+		select {
+		case <-cdone:
+		case <-time.After(5 * time.Second):
+			verifhook.Set(nil)
+			return "", fmt.Errorf("delete cascade did not finish within 5s")
+		}
+		verifhook.Set(nil)
+		if serr != nil {
+			os.RemoveAll(img)
+			return "", fmt.Errorf("VDeleteSnapCut: snapshot: %w", serr)
+		}
+		if imgErr != nil {
+			return "", fmt.Errorf("VDeleteSnapCut: crash image: %w", imgErr)
+		}
+		if cerr := e.Close(); cerr != nil {
+			return "", fmt.Errorf("close: %w", cerr)
+		}
+		r.E = nil
 		if err := os.RemoveAll(r.Dir); err != nil {
 			return "", err
 		}
